@@ -23,13 +23,14 @@ MANIFEST = {
 }
 THEOREMS = [
  'C01.gate_allow_iff', 'C01.gate_name_mismatch', 'C01.gate_forbidden', 'C01.gate_forbidden_channel', 'C01.gate_checks_plugin',
- 'C01.check_antiowner', 'C01.gate_antiowner', 'C01.gate_antiplugin', 'C01.gate_antiadmin',
+ 'C01.check_antiowner', 'C01.gate_antiowner', 'C01.gate_antiowner_reply', 'C01.gate_antiplugin', 'C01.gate_antiadmin',
+ 'C01.getChannel_touch', 'C01.checkCapability_congr', 'C01.checkCapability_touch', 'C01.gate_touch',
  'C01.converter_guard', 'C01.converter_guard_noowner', 'C01.converter_guard_chan', 'C01.chancap_first_channel',
  'C01.invoke_body_requires', 'C01.owner_plugin_body_needs_owner', 'C01.guarded_body_needs_capability',
  'C01.ignored_silent', 'C01.dispatch_requires_not_ignored', 'C01.ignore_flag_ignored', 'C01.ignores_db_ignored',
  'C01.config_write_guard', 'C01.readonly_never_written',
  'C01.defaults_have_antiowner', 'C01.defaults_drop_owner', 'C01.shipped_defaults_ok',
- 'C01.required_present', 'C01.plugin_names_canonical', 'C01.callgraph_ok', 'C01.gate_shape_ok',
+ 'C01.required_present', 'C01.required_rows_guarded', 'C01.plugin_names_canonical', 'C01.callgraph_ok', 'C01.defaults_mutators_ok', 'C01.gate_shape_ok',
 ]
 TRUSTED = ['Lean 4.33.0 kernel; axioms ⊆ {propext, Classical.choice, Quot.sound}',
            'harness/extractors/commands.py (command inventory, call graph, gate shape → Gen/Commands.lean) and harness/extractors/ircdb_caps.py',
@@ -592,7 +593,7 @@ def explore(ctx, b, w, table, required, n_extra):
         for role in base_roles:
             reps = [('char', 'direct'), ('private', 'qualified')] if gated else [('char', 'direct')]
             if ctx.thorough and gated:
-                reps = combos
+                reps = combos[k % 2::2]       # every (form, wrapper) pair is met by half of the roles of each row
             else:
                 reps = reps + [combos[(k * 7 + i * 13) % len(combos)] for i in range(2 if gated else 1)]
             k += 1
@@ -749,7 +750,8 @@ def explore(ctx, b, w, table, required, n_extra):
             cls = classify(out)
             changed = snap_diff(before, after)
             if sc.wrapper == 'scheduled':
-                changed = [k for k in changed if k not in ('events', 'sched')]
+                # schedule.run() also fires unrelated periodic events (flushers) once the clock has moved
+                changed = [k for k in changed if k not in ('events', 'sched', 'files')]
         finally:
             undo()
         if changed:
